@@ -111,6 +111,7 @@ def main():
         meta["confirmed"] = bool(demo_ok and not newf)
         # our checks
         cres = {}
+        before = set(os.path.join(b, f) for b, _, fs in os.walk(os.path.join(ROOT, "replays")) for f in fs)
         env = dict(os.environ, VERIF_REPO=wt)
         for c in checks:
             t0 = time.time()
@@ -119,9 +120,13 @@ def main():
             cres[c] = dict(exit=rc_of(out), wall_s=round(time.time() - t0, 1), violation=viol[:1], tail=out[-300:])
         meta["steps"]["checks"] = cres
         meta["caught_by"] = [c for c, v in cres.items() if v["exit"] == 1]
+        for b, _, fs in os.walk(os.path.join(ROOT, "replays")):
+            for f in fs:
+                if os.path.join(b, f) not in before:
+                    os.remove(os.path.join(b, f))
     finally:
         sh("git -C /repo worktree remove --force %s" % wt)
-        sh("cd %s && git checkout -q -- evidence 2>/dev/null; git clean -fdq replays" % ROOT)
+        sh("cd %s && git checkout -q -- evidence 2>/dev/null" % ROOT)
     return finish(sid, src, meta, demos)
 
 
